@@ -18,6 +18,8 @@ import (
 	"time"
 
 	tss "github.com/IBM/TSS/types"
+
+	"verifharness/common"
 )
 
 type dmsg struct {
@@ -35,49 +37,9 @@ type devent struct {
 	Data  []byte // SEND only
 }
 
-// countCtx is a context that ends at its k-th consultation (a call of Err or Done), whatever the wall clock says: running a call
-// once for every k enumerates every window between two of its context checks. A parent context (the run's) ends it as well.
-type countCtx struct {
-	parent context.Context
-	k      int64
-	n      int64
-	done   chan struct{}
-	once   sync.Once
-}
+type countCtx = common.CountCtx
 
-func newCountCtx(parent context.Context, k int64) *countCtx {
-	c := &countCtx{parent: parent, k: k, done: make(chan struct{})}
-	go func() {
-		select {
-		case <-parent.Done():
-			c.once.Do(func() { close(c.done) })
-		case <-c.done:
-		}
-	}()
-	return c
-}
-
-func (c *countCtx) tick() {
-	if n := atomic.AddInt64(&c.n, 1); c.k > 0 && n >= c.k {
-		c.once.Do(func() { close(c.done) })
-	}
-}
-func (c *countCtx) Consultations() int64              { return atomic.LoadInt64(&c.n) }
-func (c *countCtx) Deadline() (time.Time, bool)       { return time.Time{}, false }
-func (c *countCtx) Value(key interface{}) interface{} { return nil }
-func (c *countCtx) Done() <-chan struct{}             { c.tick(); return c.done }
-func (c *countCtx) Err() error {
-	c.tick()
-	select {
-	case <-c.done:
-		if c.parent.Err() != nil {
-			return c.parent.Err()
-		}
-		return context.DeadlineExceeded
-	default:
-		return nil
-	}
-}
+func newCountCtx(parent context.Context, k int64) *countCtx { return common.NewCountCtx(parent, k) }
 
 type drun struct {
 	ctxFor  map[uint16]context.Context // per-party context (default: the run's)
